@@ -21,7 +21,7 @@ def mutants(path, text):
     for i in range(end):
         l = lines[i]
         st = l.strip()
-        only_new = "--swap" in sys.argv or "--ror" in sys.argv or "--const" in sys.argv or "--method" in sys.argv or "--args" in sys.argv or "--cond" in sys.argv
+        only_new = "--swap" in sys.argv or "--ror" in sys.argv or "--const" in sys.argv or "--method" in sys.argv or "--args" in sys.argv or "--cond" in sys.argv or "--ret" in sys.argv
         if not only_new and st.endswith(";") and not st.startswith(("let ", "use ", "//", "pub ", "type ", "return")) and "(" in st and l.startswith("    "):
             out.append(("del %d: %s" % (i + 1, st[:70]), "\n".join(lines[:i] + lines[i + 1:])))
         # swap two adjacent call statements of the same block (ordering mutants)
@@ -56,6 +56,9 @@ def mutants(path, text):
             mw = re.match(r"^(\s+)while (.*) \{$", l)
             if mw and "let " not in l:
                 out.append(("cond %d: %s [-> false]" % (i + 1, st[:60]), "\n".join(lines[:i] + [mw.group(1) + "while false {"] + lines[i + 1:])))
+        # control transfer removed: `return;` / `break;` / `continue;` lines deleted, `return x;` -> `x;` not attempted
+        if "--ret" in sys.argv and st in ("return;", "break;", "continue;"):
+            out.append(("ret %d: %s deleted" % (i + 1, st), "\n".join(lines[:i] + lines[i + 1:])))
         # sibling-method replacement
         if "--method" in sys.argv and l.startswith("    ") and not st.startswith(("//", "fn ", "pub ", "impl", "where", "use ", "#")):
             for (a, b_) in ((".pop_front()", ".pop_back()"), (".pop_back()", ".pop_front()"), (".push_back(", ".push_front("), (".push_front(", ".push_back("),
